@@ -1,4 +1,4 @@
-(* C01 oracle and non-triviality on wiring cases. Correspondence: Corr/Wiring.v [wcheck];
+(* C13 oracle and non-triviality on wiring cases. Correspondence: Corr/Wiring.v [wcheck];
    oracles: Corr/WiringOracles.v (static scenario data + the implementation's observation only). *)
 From Coq Require Import List Arith Bool.
 From IocVerif Require Import Model.App Corr.Wiring Corr.WiringOracles.
@@ -6,10 +6,10 @@ Import ListNotations.
 
 Definition check_case : wcase -> bool := wcheck.
 
-(* after a successful start every version held anywhere equals the by-name lookup of its component *)
-Definition oracle_case (c : wcase) : bool := oracle_one_version c.
+(* every runner once, in contract order, after all eager initialisation; stop at the first failing runner *)
+Definition oracle_case (c : wcase) : bool := oracle_runners c.
 
-Definition nontrivial (c : wcase) : bool := ok_start c && shared c 2.
+Definition nontrivial (c : wcase) : bool := (2 <=? length (runner_names c)) || negb (forallb (fun n => negb (runner_fails (w_scn c) n)) (runner_names c)).
 
 Definition mismatches (cs : list wcase) : list nat := wmismatches cs.
 Definition violations (cs : list wcase) : list nat :=
